@@ -456,6 +456,90 @@ func init() {
 			}
 			sb.WriteString("def bsOf (baseSlot : Int) : Int :=\n  " + bss + "\n")
 		}
+		// error handling of the rollup job: every `if err != nil` of compactJob.makeInputIterator must
+		// give the error back (a source file that cannot be opened fails the job: nothing is installed,
+		// no reference, the rollup entry stays); family.rollup() `continue`s on a failed doRollupWork
+		// BEFORE it collects the DeleteRollupFile logs; doRollupWork returns the job's error.
+		errKinds := func(fd *ast.FuncDecl) []string {
+			var out []string
+			if fd == nil {
+				return []string{"function-not-found"}
+			}
+			ast.Inspect(fd.Body, func(n ast.Node) bool {
+				is, ok := n.(*ast.IfStmt)
+				if !ok {
+					return true
+				}
+				be, ok := is.Cond.(*ast.BinaryExpr)
+				if !ok || be.Op != token.NEQ || exprName(be.X) != "err" || exprName(be.Y) != "nil" {
+					return true
+				}
+				kind := "falls-through"
+				if n := len(is.Body.List); n > 0 {
+					switch last := is.Body.List[n-1].(type) {
+					case *ast.ReturnStmt:
+						kind = "return-other"
+						if m := len(last.Results); m > 0 && exprName(last.Results[m-1]) == "err" {
+							kind = "return-err"
+						}
+					case *ast.BranchStmt:
+						kind = last.Tok.String()
+					}
+					// an earlier return/continue inside a nested block changes nothing here: only the
+					// straight-line shape `if err != nil { …; return …, err }` is accepted as "return-err"
+					if kind == "return-err" && n > 1 {
+						for _, st := range is.Body.List[:n-1] {
+							if _, isIf := st.(*ast.IfStmt); isIf {
+								kind = "conditional-return-err"
+							}
+						}
+					}
+				}
+				out = append(out, kind)
+				return true
+			})
+			return out
+		}
+		sb.WriteString("\n/-- what each `if err != nil` of `compactJob.makeInputIterator` / `family.doRollupWork` ends with -/\n")
+		sb.WriteString("def makeInputIteratorErrBranches : List String := " + LeanStrList(errKinds(FindFunc(cj, "compactJob", "makeInputIterator"))) + "\n")
+		sb.WriteString("def doRollupWorkErrBranches : List String := " + LeanStrList(errKinds(FindFunc(fr, "family", "doRollupWork"))) + "\n")
+		// rollup(): the `if err := targetFamily.doRollupWork(...); err != nil { …; continue }`
+		workErr := "not-found"
+		ast.Inspect(rb, func(n ast.Node) bool {
+			is, ok := n.(*ast.IfStmt)
+			if !ok || is.Init == nil {
+				return true
+			}
+			as, ok := is.Init.(*ast.AssignStmt)
+			if !ok || len(as.Rhs) != 1 {
+				return true
+			}
+			if ce, ok := as.Rhs[0].(*ast.CallExpr); ok && strings.HasSuffix(exprName(ce.Fun), ".doRollupWork") {
+				workErr = "falls-through"
+				if n := len(is.Body.List); n > 0 {
+					if br, ok := is.Body.List[n-1].(*ast.BranchStmt); ok {
+						workErr = br.Tok.String()
+					}
+				}
+			}
+			return true
+		})
+		sb.WriteString("def rollupOnWorkError : String := " + fmt.Sprintf("%q", workErr) + "\n")
+		// the guard of family.rollup(): `if f.rolluping.CompareAndSwap(false, true) {`
+		guard := "other"
+		if rfn := FindFunc(fr, "family", "rollup"); rfn != nil {
+			for _, st := range rfn.Body.List {
+				if is, ok := st.(*ast.IfStmt); ok {
+					if ce, ok := is.Cond.(*ast.CallExpr); ok && exprName(ce.Fun) == "rolluping.CompareAndSwap" && len(ce.Args) == 2 &&
+						exprName(ce.Args[0]) == "false" && exprName(ce.Args[1]) == "true" {
+						guard = "cas"
+					}
+					break
+				}
+			}
+		}
+		sb.WriteString("\n/-- the guard of `family.rollup()` is `rolluping.CompareAndSwap(false, true)` -/\n")
+		fmt.Fprintf(&sb, "def rollupGuardIsCAS : Bool := %v\n", guard == "cas")
 		sh, err := c04SharedState(repo)
 		if err != nil {
 			return "", err
